@@ -378,7 +378,7 @@ void cstl_array_alloc(cstl_array_t * const a,
 {
     struct cstl_raw_array * ra;
 
-    cstl_shared_ptr_reset(&a->ptr);
+    cstl_array_reset(a);
     cstl_shared_ptr_alloc(&a->ptr, sizeof(*ra) + nm * sz, NULL);
 
     ra = cstl_shared_ptr_get(&a->ptr);
